@@ -581,6 +581,37 @@ func TestIsBisyncMirroredTransaction(t *testing.T) {
 	}
 }
 
+func TestIsBisyncMirroredTransactionAfterMarkerLazyExpiry(t *testing.T) {
+	markerKey := checkpoint.BisyncMarkerKey("redis-gunyu-checkpoint-bisync:test-a", "tag")
+	business := bisyncAofCommand{Cmd: "incrby", Args: [][]byte{[]byte("foo{tag}"), []byte("1")}}
+	marker := bisyncAofCommand{Cmd: "set", Args: [][]byte{[]byte(markerKey), []byte("{}"), []byte("PXAT"), []byte("1000")}}
+
+	for _, del := range []string{"del", "UNLINK"} {
+		// the previous marker was expired but not reaped yet: Redis propagates
+		// its deletion ahead of the SET inside the same MULTI/EXEC
+		cmds := []bisyncAofCommand{
+			{Cmd: del, Args: [][]byte{[]byte(markerKey)}},
+			marker,
+			business,
+		}
+		if !isBisyncMirroredTransaction(cmds) {
+			t.Fatalf("expected mirrored transaction behind %s of the expired marker to be suppressed", del)
+		}
+	}
+
+	// a deletion of anything else in front is not a mirrored transaction
+	foreign := []bisyncAofCommand{
+		{Cmd: "del", Args: [][]byte{[]byte("foo{tag}")}},
+		marker,
+	}
+	if isBisyncMirroredTransaction(foreign) {
+		t.Fatalf("transaction starting with a business DEL must not be suppressed")
+	}
+	if isBisyncMirroredTransaction([]bisyncAofCommand{{Cmd: "del", Args: [][]byte{[]byte(markerKey)}}}) {
+		t.Fatalf("a lone marker deletion is not a mirrored transaction")
+	}
+}
+
 func TestIsBisyncMirroredPipelineTransaction(t *testing.T) {
 	business := []bisyncAofCommand{
 		{Cmd: "set", Args: [][]byte{[]byte("foo{tag}"), []byte("value")}},
